@@ -130,8 +130,46 @@ def vmap_model(ip, f, in_axes=0, out_axes=0):
             a = [mark(x) if i < len(in_axes) and in_axes[i] is None else x for i, x in enumerate(a)]
         elif in_axes is None:
             a = [mark(x) for x in a]
-        return ip_.call(f, a, {})
+        g_ = ip_.ctx.ghost
+        g_["vmap_depth"] = g_.get("vmap_depth", 0) + 1  # dynamic scope: callees can tell whether they see per-chain views
+        try:
+            return ip_.call(f, a, {})
+        finally:
+            g_["vmap_depth"] -= 1
     return PyFn(run, "vmapped")
+
+
+def tree_flatten_model(ip, tree, is_leaf=None):
+    """A-PYTREE: leaves of dicts in SORTED key order (OrderedDict: insertion order), lists / tuples in order; an opaque term is one leaf"""
+    import collections
+
+    if isinstance(tree, collections.OrderedDict):
+        parts = [(k, tree_flatten_model(ip, tree[k])) for k in tree]
+        return [x for _, (lv, _d) in parts for x in lv], ("odict", tuple((k, d) for k, (_l, d) in parts))
+    if isinstance(tree, dict):
+        parts = [(k, tree_flatten_model(ip, tree[k])) for k in sorted(tree)]
+        return [x for _, (lv, _d) in parts for x in lv], ("dict", tuple((k, d) for k, (_l, d) in parts))
+    if isinstance(tree, (list, tuple)):
+        parts = [tree_flatten_model(ip, v) for v in tree]
+        return [x for lv, _d in parts for x in lv], ("list" if isinstance(tree, list) else "tuple", tuple(d for _l, d in parts))
+    if tree is None:
+        return [], ("none",)
+    return [tree], ("leaf",)
+
+
+def tree_unflatten_model(ip, treedef, leaves):
+    leaves = list(ip.iterate(leaves))
+
+    def build(d):
+        if d[0] == "leaf":
+            return leaves.pop(0)
+        if d[0] == "none":
+            return None
+        if d[0] in ("dict", "odict"):
+            return {k: build(sub) for k, sub in d[1]}
+        out = [build(sub) for sub in d[1]]
+        return out if d[0] == "list" else tuple(out)
+    return build(treedef)
 
 
 def tree_map_model(ip, f, tree, *rest):
@@ -146,10 +184,19 @@ def tree_map_model(ip, f, tree, *rest):
     return ip.call(f, [tree, *rest], {})
 
 
+def install_pytree_models(ip):
+    for mod in ("jax.tree_util", "jax.tree"):
+        ip.models.setdefault(f"{mod}.tree_flatten" if mod == "jax.tree_util" else f"{mod}.flatten", tree_flatten_model)
+        ip.models.setdefault(f"{mod}.tree_unflatten" if mod == "jax.tree_util" else f"{mod}.unflatten", tree_unflatten_model)
+        ip.models.setdefault(f"{mod}.tree_leaves" if mod == "jax.tree_util" else f"{mod}.leaves", lambda ip_, t, is_leaf=None: tree_flatten_model(ip_, t)[0])
+        ip.models.setdefault(f"{mod}.tree_structure" if mod == "jax.tree_util" else f"{mod}.structure", lambda ip_, t, is_leaf=None: tree_flatten_model(ip_, t)[1])
+
+
 def install_engine_models(ip):
     ip.models["jax.vmap"] = vmap_model
     ip.models.setdefault("jax.tree_util.tree_map", tree_map_model)
     ip.models.setdefault("jax.tree.map", tree_map_model)
+    install_pytree_models(ip)
     ip.models.setdefault("getitem", lambda ip_, v, idx: ip_.uf("getitem", ip_.to_U(v), ip_.to_z3_any(idx)) if is_z3(v) and v.sort() == U and (isinstance(idx, int) or is_z3(idx)) else (_ for _ in ()).throw(Unsupported(f"getitem({v!r}, {idx!r})")))
     ip.models["tqdm.tqdm"] = lambda ip_, it, **k: it
     ip.summaries["liesel/goose/pytree.py::as_strong_pytree"] = lambda ip_, args, kwargs: args[0]
@@ -277,8 +324,17 @@ def u_handle_init(ip):
     t0 = ep.f["time"]
     eng.f["_epoch"] = ep
     eng.f["_kernel_sequence"] = ks_stub(ip, trace)
-    eng.f["_model"] = PyObj("model", extract_position=PyFn(lambda ip_, keys, st: ip_.uf("extract", ip_.to_U(keys), ip_.to_U(st)), "extract_position"))
+    seen = []
+
+    def extract(ip_, keys, st):
+        seen.append(ip_.ctx.ghost.get("vmap_depth", 0) > 0)
+        return ip_.uf("extract", ip_.to_U(keys), ip_.to_U(st))
+
+    eng.f["_model"] = PyObj("model", extract_position=PyFn(extract, "extract_position"))
     ip.call(method(ip, eng, "_handle_inital_values_epoch"), [], {})
+    # precondition of the ModelInterface protocol: extract_position is handed ONE chain's state (it may compute derived quantities that reduce
+    # over the value's own leading axis) - the engine's stacked states only ever reach it through vmap
+    c.oblige("model_interface_is_handed_single_chain_states", len(seen) >= 1 and all(seen))
     c.oblige("no_kernel_calls", not any(n.startswith("kernel_sequence.") for n in names(trace)))
     c.oblige("time_advanced_by_one", ep.f["time"] == t0 + 1)
     c.oblige("initial_position_stored", "position_chain.append" in names(trace))
@@ -513,10 +569,14 @@ for _n in (1, 2, 3):
     ks_unit(_n)
 
 
-@unit("C07.mixins", "C07", [f"{KER}::TransitionMixin.transition", f"{KER}::TuningMixin.tune", f"{EPOCH}::EpochType.is_adaptation"])
+def mixins_unit(uid, prop):
+    return unit(uid, prop, [f"{KER}::TransitionMixin.transition", f"{KER}::TuningMixin.tune", f"{EPOCH}::EpochType.is_adaptation"])(u_mixins)
+
+
 def u_mixins(ip):
     """the transition mixin uses the adaptive transition exactly in adaptation epochs (FAST/SLOW); the tuning mixin uses slow
-    tuning exactly after SLOW_ADAPTATION epochs; all arguments are forwarded unchanged."""
+    tuning exactly after SLOW_ADAPTATION epochs; all arguments are forwarded unchanged - in particular the history, whether it is
+    an opaque pytree, a dict with a single tracked key, a dict with several keys, or None."""
     c = ip.ctx
     ep = sym_epoch_state(ip)
     t = ep.f["config"].f["type"]
@@ -538,6 +598,14 @@ def u_mixins(ip):
     c.oblige("tune.one_branch", len(calls) == 1)
     c.oblige("tune.slow_iff_slow_adaptation", z3.BoolVal(calls[0][0] == "slow") == (t == 2))
     c.oblige("tune.args_forwarded", all(x is y for x, y in zip(calls[0][1], args2)))
+    for tag, hist in (("single_key_history", {"only": z3.Const("h_only", U)}), ("two_key_history", {"b": z3.Const("h_b", U), "a": z3.Const("h_a", U)}), ("no_history", None)):
+        del calls[:]
+        a3 = args + [hist]
+        ip.call(method(ip, o2, "tune"), a3, {})
+        c.oblige(f"tune.{tag}.forwarded_as_given", len(calls) == 1 and len(calls[0][1]) == len(a3) and all(x is y for x, y in zip(calls[0][1], a3)))
+
+
+mixins_unit("C07.mixins", "C07")
 
 
 @unit("C07.sample_all_epochs", "C07", [f"{E}.sample_all_epochs", f"{E}.append_epoch", f"{E}.is_sampling_done"],
